@@ -81,6 +81,17 @@ def layout_case(draw, tier: str):
             nm = draw(st.sampled_from(related(f.name)))
             if all(h.name != nm for h in inner.fields):
                 g.name = nm
+    # a sibling field spelled like the flattened name of a nested leaf ("status_code" next to status: {code}): a signal
+    # block declared for the sibling must not reach the nested leaf
+    for st_ in s.structs:
+        nested_f = [f for f in st_.fields if isinstance(M.type_leaf(f.type), M.StructRef)]
+        if nested_f and draw(st.integers(0, 4)) == 0:
+            f = draw(st.sampled_from(nested_f))
+            inner = s.struct(M.type_leaf(f.type).name)
+            g = draw(st.sampled_from(inner.fields))
+            nm = f.name + draw(st.sampled_from(["_", "_", "", "__"])) + g.name
+            if all(h.name != nm for h in st_.fields):
+                st_.fields.append(M.Field(nm, max(h.fid for h in st_.fields) + 1, M.U(draw(st.integers(1, 8)))))
     if draw(st.integers(0, 7)) == 0:
         # directed: an array of structs whose elements contain an array of structs (two unrolled levels), with the
         # inner field named after the outer one
